@@ -10,7 +10,16 @@ W="$1"; P="$2"; PROP="${3:-}"
 # merge of such a change with the fix applies cleanly but leaves the salt with OsRng, i.e. it silently
 # repairs the seeded defect. Those changes are tested on their base commit instead.
 clean() { git -C "$W" reset -q --hard; git -C "$W" clean -fdq; }
+HEADC=$(git -C "$W" rev-parse HEAD)
 clean
+if [ "$PROP" = C08 ]; then
+    # written before the D7 fix? then it applies to the base commit, and is tested there (see above: on the
+    # repaired head the salt comes from OsRng whatever such a change does to the other generator)
+    git -C "$W" checkout -q --detach 45d4d17 2>/dev/null
+    if git -C "$W" apply "$P" 2>/dev/null; then echo BASE; exit 0; fi
+    clean
+    git -C "$W" checkout -q --detach "$HEADC" 2>/dev/null
+fi
 if git -C "$W" apply "$P" 2>/dev/null; then echo PLAIN; exit 0; fi
 clean
 if [ "$PROP" != C08 ] && git -C "$W" apply --3way "$P" >/dev/null 2>&1 && ! git -C "$W" diff --name-only --diff-filter=U | grep -q .; then git -C "$W" reset -q; echo THREEWAY; exit 0; fi
